@@ -138,7 +138,7 @@ class UserPfileKnife(Task):
 
 
 def chef_tasks(prop, tier="quick"):
-    out = [UserPfileKnife(False), UserPfileKnife(True)] + init_tasks(tier)
+    out = [UserPfileKnife(False), UserPfileKnife(True)] + init_tasks(tier) + cook_tasks(tier)
     for t in out:
         t.prop = prop
     return out
@@ -149,7 +149,7 @@ def chef_canaries():
     return [("user knife: minima taken on the new data only",
              [(f, "                min_values = np.min(alldata, axis=(0, 1, 2))\n                max_values = np.max(alldata, axis=(0, 1, 2))\n                mins.append(min_values)\n                maxs.append(max_values)\n                bfw.write(alldata.flatten(order=\"F\").tobytes())\n\n    return offsets, np.array(mins), np.array(maxs)\n\nclass Chef",
                "                min_values = np.min(newdata, axis=(0, 1, 2))\n                max_values = np.max(alldata, axis=(0, 1, 2))\n                mins.append(min_values)\n                maxs.append(max_values)\n                bfw.write(alldata.flatten(order=\"F\").tobytes())\n\n    return offsets, np.array(mins), np.array(maxs)\n\nclass Chef")],
-             ["chefs_knife_user_pfile[n components]"])] + init_canaries()
+             ["chefs_knife_user_pfile[n components]"])] + init_canaries() + cook_canaries()
 
 
 # ---------------------------------------------------------------------------------------------------------------------
@@ -201,3 +201,143 @@ def init_canaries():
              [(f, "        kept_names = [list(self.fields.keys())[fid] for fid in self.ids_keep]",
                "        kept_names = [name for name, fid in self.fields.items() if fid in self.ids_keep]")],
              ["Chef.__init__.kept-names[nf=3,keep=[2, 0],new=1]"])]
+
+
+# ---------------------------------------------------------------------------------------------------------------------
+# Chef.cook: per-file task and the scatter of what the knives return
+
+
+def _src(pattern):
+    import ast
+    return lambda s: pattern in ast.unparse(s).split("\n")[0]
+
+
+CFILES = ["plt/Level_0/Cell_D_00001", "plt/Level_0/Cell_D_00000", "plt/Level_0/Cell_D_00001"]
+
+
+class CookTask(FragmentTask):
+    """Body of the loop of Chef.cook over the binary files of a level.  The knives read a binary file front to back and return
+    offsets / minima / maxima in that (disk) order, so for the boxes B of the current file the ids recorded in box_index_map
+    must be B in increasing READ offset; the task names the file itself and the same base name under the output level
+    directory, and carries the cook's recipe, kept ids and field table.  Skeleton: 3 boxes over 2 interleaved files."""
+    prop = "C11"
+    reach = "S"
+    qual = CF + "Chef.cook"
+    first = staticmethod(_src("bf_mask = level_files == bfpath"))
+    last = staticmethod(_src("mp_calls.append(call)"))
+
+    def __init__(self, which):
+        self.which = which
+        self.name = f"cook.task-of-binary-file[{which.split('/')[-1]}]"
+
+    def setup(self, ex):
+        ctx = ex.ctx
+        off = [z3.Int(f"off{i}") for i in range(3)]
+        ctx.assume(z3.And(z3.Distinct(*off), *[x >= 0 for x in off]))
+        keep, fields, recipe = Opaque("ids_keep", "obj"), Opaque("fields", "obj"), Opaque("recipe", "obj")
+        self_ = Record(CF + "Chef", outdir="out", cell_paths=["Level_0"], recipe=recipe, sp_indexes=[], rx_indexes=[], sp_start=None,
+                       sp_end=None, fields=fields, id_temp=None, ids_keep=keep, idx_O2=None)
+        frame = {"self": self_, "lv": 0, "level_files": Vec(list(CFILES), "array"), "level_offsets": Vec(off, "array"), "ncells": 3,
+                 "box_indexes": Vec([0, 1, 2], "array"), "box_index_map": [], "mp_calls": [], "bfpath": self.which}
+        return {"frame": frame, "B": [i for i in range(3) if CFILES[i] == self.which], "off": off, "keep": keep, "fields": fields,
+                "recipe": recipe}
+
+    def post(self, ex, inp, out):
+        ctx = ex.ctx
+        ctx.oblige("raises-nothing", out.kind == "ret", "P", note=str(out.exc) if out.kind != "ret" else "")
+        if out.kind != "ret":
+            return
+        v, B, off = out.value, inp["B"], inp["off"]
+        calls, bmap = v.get("mp_calls"), v.get("box_index_map")
+        ok = isinstance(calls, list) and len(calls) == 1 and isinstance(calls[0], dict) and isinstance(bmap, list) and len(bmap) == 1
+        ctx.oblige("post.one-task-and-one-id-list-appended", ok, "P")
+        if not ok:
+            return
+        ids = ex.as_iterable(bmap[0])
+        ctx.oblige("post.as-many-ids-as-boxes-in-the-file", len(ids) == len(B), "P")
+        if len(ids) != len(B):
+            return
+        pick = lambda k: z3.Sum([z3.If(to_z3(k) == c, off[c], 0) for c in range(3)])
+        ctx.oblige("post.ids-are-the-boxes-of-the-file", zand(*[zor(*[to_z3(b) == c for c in B]) for b in ids],
+                                                             z3.Distinct(*[to_z3(b) for b in ids]) if len(ids) > 1 else True), "P")
+        for t in range(len(ids) - 1):
+            ctx.oblige(f"post.ids-in-the-order-the-knife-reads-the-file[{t}]", pick(ids[t]) < pick(ids[t + 1]), "P")
+        from pyvc.ops import compare
+        call = calls[0]
+        ctx.oblige("post.reads-the-level-binary-file", compare(ex, "Eq", call.get("bfpath"), self.which), "P", note=str(call.get("bfpath")))
+        ctx.oblige("post.writes-the-same-name-under-the-output-level-directory",
+                   compare(ex, "Eq", call.get("newbfpath"), "out/Level_0/" + self.which.split("/")[-1]), "P", note=str(call.get("newbfpath")))
+        ctx.oblige("post.recipe-kept-ids-and-field-table-passed-through",
+                   call.get("recipe") is inp["recipe"] and call.get("ids_keep") is inp["keep"] and call.get("field_indexes") is inp["fields"], "P")
+
+
+class CookScatter(FragmentTask):
+    """The loop of Chef.cook storing what the knives returned: the t-th offset / minima / maxima of the task of file f go to box
+    box_index_map[f][t]."""
+    prop = "C11"
+    reach = "S"
+    qual = CF + "Chef.cook"
+    first = staticmethod(_src("for file_idxs, bfile_result in zip(box_index_map, output)"))
+    last = first
+
+    def __init__(self):
+        self.name = "cook.results-stored-per-box"
+
+    def setup(self, ex):
+        ctx = ex.ctx
+        I, R = z3.IntSort(), z3.RealSort()
+        a, b = z3.Ints("id_a id_b")
+        ctx.assume(z3.Or(z3.And(a == 0, b == 2), z3.And(a == 2, b == 0)))
+        offs = [[z3.Int("off_f0_0"), z3.Int("off_f0_1")], [z3.Int("off_f1_0")]]
+        mins = [[[z3.Real(f"min_f{f}_{t}_{c}") for c in range(2)] for t in range(n)] for f, n in ((0, 2), (1, 1))]
+        maxs = [[[z3.Real(f"max_f{f}_{t}_{c}") for c in range(2)] for t in range(n)] for f, n in ((0, 2), (1, 1))]
+
+        def arr2(rows):
+            def el(ix):
+                r, c = to_z3(ix[0]), to_z3(ix[1])
+                e = None
+                for i in range(len(rows) - 1, -1, -1):
+                    for j in range(1, -1, -1):
+                        e = rows[i][j] if e is None else z3.If(z3.And(r == i, c == j), rows[i][j], e)
+                return e
+            return NDArray([len(rows), 2], el, "f8")
+        output = [(Vec(offs[f], "array"), arr2(mins[f]), arr2(maxs[f])) for f in range(2)]
+        P = z3.Function("PRIOR", I, I, R)
+        frame = {"output": output, "box_index_map": [Vec([a, b], "array"), Vec([1], "array")],
+                 "mapped_offsets": Vec([z3.Int("j0"), z3.Int("j1"), z3.Int("j2")], "array"),
+                 "mapped_mins": NDArray([3, 2], lambda ix: P(to_z3(ix[0]), to_z3(ix[1])), "f8"),
+                 "mapped_maxs": NDArray([3, 2], lambda ix: P(to_z3(ix[0]) + 10, to_z3(ix[1])), "f8")}
+        return {"frame": frame, "ids": [[a, b], [1]], "offs": offs, "mins": mins, "maxs": maxs}
+
+    def post(self, ex, inp, out):
+        ctx = ex.ctx
+        ctx.oblige("raises-nothing", out.kind == "ret", "P", note=str(out.exc) if out.kind != "ret" else "")
+        if out.kind != "ret":
+            return
+        from pyvc.ops import as_ndarray
+        v = out.value
+        ao, am, ax = as_ndarray(v["mapped_offsets"]), as_ndarray(v["mapped_mins"]), as_ndarray(v["mapped_maxs"])
+        for f, ids in enumerate(inp["ids"]):
+            for t, bid in enumerate(ids):
+                for c in range(3):
+                    hyp = to_z3(bid) == c if is_z3(bid) else (bid == c)
+                    if hyp is False:
+                        continue
+                    ctx.oblige(f"post.offset-of-task{f}[{t}]-stored-for-its-box", z3.Implies(hyp, to_z3(ao.elem((c,))) == inp["offs"][f][t]), "P")
+                    for k in range(2):
+                        ctx.oblige(f"post.minima-of-task{f}[{t}]-stored-for-its-box", z3.Implies(hyp, to_z3(am.elem((c, k))) == inp["mins"][f][t][k]), "P")
+                        ctx.oblige(f"post.maxima-of-task{f}[{t}]-stored-for-its-box", z3.Implies(hyp, to_z3(ax.elem((c, k))) == inp["maxs"][f][t][k]), "P")
+
+
+def cook_tasks(tier):
+    return [CookTask(CFILES[0]), CookTask(CFILES[1]), CookScatter()]
+
+
+def cook_canaries():
+    f = "amr_kitchen/chef/chef.py"
+    return [("cook: ids of a file stored in box order, not in read order",
+             [(f, "                box_index_map.append(bf_indexes[np.argsort(bf_offsets_r)])", "                box_index_map.append(bf_indexes)")],
+             ["cook.task-of-binary-file[Cell_D_00001]"]),
+            ("cook: maxima stored from the minima",
+             [(f, "                mapped_maxs[file_idxs, :] = bfile_result[2]", "                mapped_maxs[file_idxs, :] = bfile_result[1]")],
+             ["cook.results-stored-per-box"])]
